@@ -105,6 +105,10 @@ type c12Case struct {
 	// of BuiltHost (scheme://host[:port]), so acceptance can be demanded.
 	Built     bool
 	BuiltHost string
+	// More are further Origin header lines behind the first one. A browser sends
+	// exactly one; net/http's Header.Get - and so every Go handler - reads the
+	// first, and that is the line the verdict is about.
+	More []string
 }
 
 func swapCase(s string) string {
@@ -132,7 +136,7 @@ func genC12(rt *rapid.T) c12Case {
 		c.Patterns = append(c.Patterns, rapid.SampledFrom([]string{"*.example.com", "example.com", "trusted.org", "*.trusted.org", "TRUSTED.org", "app-?.trusted.org", "*", "localhost:*", "*:8080", "evil.com"}).Draw(rt, "pattern"))
 	}
 	c.Insecure = rapid.IntRange(0, 9).Draw(rt, "insecure") == 0
-	c.Family = rapid.SampledFrom([]string{"absent", "same-host", "same-host-case", "pattern-authorised", "other-host", "userinfo-host-at-evil", "userinfo-evil-at-host", "port-mismatch", "suffix-lookalike", "prefix-lookalike", "subdomain-lookalike", "host-in-path", "host-in-query", "host-in-fragment", "null", "schemeless", "opaque", "whitespace", "garbage", "trailing-dot", "double-at", "backslash", "empty-authority"}).Draw(rt, "family")
+	c.Family = rapid.SampledFrom([]string{"absent", "same-host", "same-host-case", "pattern-authorised", "other-host", "userinfo-host-at-evil", "userinfo-evil-at-host", "port-mismatch", "suffix-lookalike", "prefix-lookalike", "subdomain-lookalike", "host-in-path", "host-in-query", "host-in-fragment", "null", "schemeless", "opaque", "whitespace", "garbage", "trailing-dot", "double-at", "backslash", "empty-authority", "long-lookalike", "long-authorised", "multi-origin"}).Draw(rt, "family")
 	switch c.Family {
 	case "absent":
 		c.Origin = ""
@@ -185,6 +189,38 @@ func genC12(rt *rapid.T) c12Case {
 		c.Origin = scheme + "://" + evil + "\\@" + host
 	case "empty-authority":
 		c.Origin = scheme + ":///" + host
+	case "long-lookalike", "long-authorised":
+		// a very long origin host, with one upper-case letter somewhere: an authorised name
+		// of total length n (n around sizes that fixed buffers have, or anywhere up to 600)
+		// followed, for the look-alike, by an attacker's domain
+		suffix := rapid.SampledFrom([]string{".example.com", ".trusted.org"}).Draw(rt, "longSuffix")
+		c.Patterns = append(c.Patterns, "*"+suffix)
+		n := rapid.OneOf(rapid.IntRange(len(suffix)+1, 600), rapid.IntRange(250, 262), rapid.SampledFrom([]int{63, 64, 65, 127, 128, 129, 511, 512, 513})).Draw(rt, "longLen")
+		if n <= len(suffix) {
+			n = len(suffix) + 1
+		}
+		label := []byte(strings.Repeat("a", n-len(suffix)))
+		if up := rapid.IntRange(-1, len(label)-1).Draw(rt, "upperAt"); up >= 0 {
+			label[up] = 'A'
+		}
+		h := string(label) + suffix
+		if c.Family == "long-lookalike" {
+			h += rapid.SampledFrom([]string{".evil.test", "evil.test", ".evil.test:8080"}).Draw(rt, "longTail")
+		}
+		c.Origin, c.Built, c.BuiltHost = scheme+"://"+h, true, h
+	case "multi-origin":
+		good := rapid.SampledFrom([]string{scheme + "://" + host, "https://app.example.com", "https://x.trusted.org"}).Draw(rt, "goodOrigin")
+		bad := scheme + "://" + evil
+		switch rapid.IntRange(0, 3).Draw(rt, "multiShape") {
+		case 0:
+			c.Origin, c.More = bad, []string{good}
+		case 1:
+			c.Origin, c.More = good, []string{bad}
+		case 2:
+			c.Origin, c.More = bad, []string{bad, good}
+		case 3:
+			c.Origin, c.More = bad, []string{good, good}
+		}
 	}
 	return c
 }
@@ -194,6 +230,9 @@ func runC12(c c12Case) (status int, hijacked bool, err error) {
 	r.Host = c.Host
 	if c.Origin != "" {
 		r.Header.Set("Origin", c.Origin)
+	}
+	for _, o := range c.More {
+		r.Header.Add("Origin", o)
 	}
 	sv, aerr := wsx.AcceptReq(r, &websocket.AcceptOptions{OriginPatterns: c.Patterns, InsecureSkipVerify: c.Insecure}, nil)
 	if sv.Conn != nil {
@@ -249,7 +288,7 @@ func checkC12(c c12Case, status int, hijacked bool) string {
 
 func TestC12(t *testing.T) {
 	rec := evid.For("C12")
-	rec.Rule = "rapid draws (Host, Origin, OriginPatterns, InsecureSkipVerify) from an origin attack grammar: 12 host forms (names, IPv4, bracketed IPv6, ports, mixed case) x 23 origin families (absent, same host, case variants, pattern-authorised, other host, userinfo tricks both ways, port mismatch, suffix/prefix/sub-domain look-alikes, host inside path/query/fragment, null, schemeless, opaque, whitespace, garbage, trailing dot, double @, backslash, empty authority) x 5 schemes x pattern sets with literals, * and ?. Oracle: independent authority extractor + glob matcher; one-sided security predicate (upgraded => authorised) plus the converse for origins the generator built as RFC 6454 serialisations. Non-trivial: Origin present and textually different from Host. distinct = hash(host, origin, patterns, flag)."
+	rec.Rule = "rapid draws (Host, Origin, OriginPatterns, InsecureSkipVerify) from an origin attack grammar: 12 host forms (names, IPv4, bracketed IPv6, ports, mixed case) x 26 origin families (very long authorised names and look-alikes of 13..600 bytes with one upper-case letter, several Origin lines of which the first is the one a Go handler sees, absent, same host, case variants, pattern-authorised, other host, userinfo tricks both ways, port mismatch, suffix/prefix/sub-domain look-alikes, host inside path/query/fragment, null, schemeless, opaque, whitespace, garbage, trailing dot, double @, backslash, empty authority) x 5 schemes x pattern sets with literals, * and ?. Oracle: independent authority extractor + glob matcher; one-sided security predicate (upgraded => authorised) plus the converse for origins the generator built as RFC 6454 serialisations. Non-trivial: Origin present and textually different from Host. distinct = hash(host, origin, patterns, flag)."
 	rapid.Check(t, func(rt *rapid.T) {
 		c := genC12(rt)
 		status, hijacked, _ := runC12(c)
@@ -259,7 +298,7 @@ func TestC12(t *testing.T) {
 		if status == 101 {
 			out = "upgraded"
 		}
-		rec.Case(nt, fmt.Sprintf("%s|%s|%v|%v", c.Host, c.Origin, c.Patterns, c.Insecure), "family:"+c.Family, "outcome:"+out, "family-outcome:"+c.Family+"/"+out)
+		rec.Case(nt, fmt.Sprintf("%s|%s|%v|%v|%v", c.Host, c.Origin, c.Patterns, c.Insecure, c.More), "family:"+c.Family, "outcome:"+out, "family-outcome:"+c.Family+"/"+out)
 		if rec.WantSample() {
 			rec.Sample(map[string]any{"host": c.Host, "origin": c.Origin, "patterns": c.Patterns, "insecure": c.Insecure, "status": status})
 		}
